@@ -324,6 +324,10 @@ func (e *Engine) VerifyFunction(fn *ssa.Function, opts VerifyOpts) (res *FuncRes
 	e.paths = 0
 	e.usedSpecs = nil
 	e.curRoot = fn
+	e.fuel = 0
+	if ct := e.cs.Funcs[fullKey(fn)]; ct != nil && ct.Fuel > 0 {
+		e.fuel = ct.Fuel
+	}
 	root := &Node{Kind: NAssume, T: TTrue}
 	var ends []*Node
 	func() {
